@@ -772,4 +772,74 @@ theorem Tree.constUpTo_spec {N : Nat} {t : Tree K} (h : Tree.constUpTo N t) {n :
   | div l r ihl ihr =>
     exact ⟨⟨(ihl h.1).1, (ihr h.2).1⟩, by simp only [Tree.freeze, (ihl h.1).2, (ihr h.2).2]⟩
 
+/-! ### `Poly.__truediv__` on Stream coefficients -/
+
+theorem toLaurent_snap_mk_of_nodup (n : Nat) (L : List (Int × Coef K)) (h : (keys L).Nodup) :
+    toLaurent (snap n (C07.mk L)) = toLaurent (snap n L) := by
+  unfold C07.mk
+  rw [toLaurent_snap_compact, snap_ofPairs, ← toLaurent_compact]
+  exact toLaurent_mk_of_nodup (by rwa [keys_snap])
+
+theorem toLaurent_snap_divmap (n : Nat) (p : MPoly (Coef K)) (d : Int) (w : Coef K)
+    (hp : polyDefined n p) (hw : w.defined n) :
+    toLaurent (snap n (p.map fun kv => (kv.1 - d, kv.2 / w)))
+      = toLaurent (snap n p) * (C (1 / w.val n) * T (-d)) := by
+  induction p with
+  | nil => simp
+  | cons a t ih =>
+    obtain ⟨ha, ht⟩ := polyDefined_cons.1 hp
+    simp only [List.map_cons, snap_cons, toLaurent_cons, ih ht, val_div a.2 w n ha hw, add_mul]
+    congr 1
+    rw [← single_eq_C_mul_T, AddMonoidAlgebra.single_mul_single, sub_eq_add_neg, mul_one_div]
+
+theorem nodup_keys_shift (p : MPoly (Coef K)) (d : Int) (f : Coef K → Coef K) (h : (keys p).Nodup) :
+    (keys (p.map fun kv => (kv.1 - d, f kv.2))).Nodup := by
+  have : keys (p.map fun kv => (kv.1 - d, f kv.2)) = (keys p).map (fun k => k - d) := by
+    simp [keys, List.map_map, Function.comp]
+  rw [this]
+  exact h.map (fun a b hab => by simpa using hab)
+
+/-- `Poly / Poly` with a one-term divisor `w·x^d`, Stream coefficients anywhere: at every time `n`
+the quotient is the dividend times `(1/w[n])·x^-d` — every coefficient divided by ITS OWN copy of
+the `n`-th item of `w` (what the code does not do: defect D22) -/
+theorem divPoly_at {p q : MPoly (Coef K)} {d : Int} {w : Coef K}
+    (e : C07.divPoly p [(d, w)] = .ok q) (n : Nat) (hp : polyDefined n p) (hw : w.defined n)
+    (kp : (keys p).Nodup) :
+    toLaurent (snap n q) = toLaurent (snap n p) * (C (1 / w.val n) * T (-d)) := by
+  unfold C07.divPoly at e
+  by_cases hemp : p.isEmpty = true
+  · have : p = [] := by simpa using hemp
+    subst this
+    simp at e
+    subst e
+    simp
+  · simp only [hemp, Bool.false_eq_true, if_false] at e
+    by_cases hw0 : w = 0
+    · simp [hw0] at e
+    · simp only [hw0, if_false, Except.ok.injEq] at e
+      subst e
+      rw [toLaurent_snap_mk_of_nodup n _ (nodup_keys_shift p d (fun c => c / w) kp),
+        toLaurent_snap_divmap n p d w hp hw]
+
+/-- `Poly / Stream` and `Poly / number` (`thub(other, len(self))`: every coefficient its own copy) -/
+theorem divScalar_at {p q : MPoly (Coef K)} {c : Coef K} (e : C07.divScalar p c = .ok q) (n : Nat)
+    (hp : polyDefined n p) (hc : c.defined n) (kp : (keys p).Nodup) :
+    toLaurent (snap n q) = toLaurent (snap n p) * C (1 / c.val n) := by
+  unfold C07.divScalar at e
+  by_cases hemp : p.isEmpty = true
+  · have : p = [] := by simpa using hemp
+    subst this
+    simp at e
+    subst e
+    simp
+  · simp only [hemp, Bool.false_eq_true, if_false] at e
+    by_cases hc0 : c = 0
+    · simp [hc0] at e
+    · simp only [hc0, if_false, Except.ok.injEq] at e
+      subst e
+      have h1 := toLaurent_snap_divmap n p 0 c hp hc
+      simp only [sub_zero, neg_zero, T_zero, mul_one] at h1
+      rw [toLaurent_snap_mk_of_nodup n _ (by simpa using nodup_keys_shift p 0 (fun x => x / c) kp)]
+      exact h1
+
 end ALV.C06
